@@ -136,6 +136,8 @@ type GenCfg struct {
 	MetaShare    bool // several fields typed by one fixed-string MetaData entry (and an alias), one of them padded
 	AnyOrder     bool // MetaData blocks may follow the packets that use them
 	MoreEmpty bool // a third of the non-root packets have no fields (heartbeat-like payloads)
+	// KeywordNames: some field names are reserved words of a target language (From, In, Class ...)
+	KeywordNames bool
 	// PostProgram edits the drawn program before it is returned (property-specific shapes)
 	PostProgram func(p *Program) `json:"-"`
 }
@@ -186,6 +188,10 @@ type genState struct {
 	nm    *Namer
 	prog  *Program
 	metas []MetaEntry
+	// shareKeys: every packet's match uses the same key-field name, key type and match-field
+	// name (names are scoped by packet; whatever a generator derives from them must be too)
+	shareKeys                bool
+	keyName, keyType, mfName string
 }
 
 var shapeNames = []string{"", "lowercamel", "snake", "allcaps", "acronym", "digit", "underscore"}
@@ -274,6 +280,7 @@ func GenProgram(t *rapid.T, cfg GenCfg) *Program {
 	g := &genState{t: t, cfg: cfg, nm: NewNamer(), prog: &Program{}}
 	p := g.prog
 	p.Opts = GenOpts(t, cfg)
+	g.shareKeys = rapid.IntRange(0, 3).Draw(t, "share_key_names") == 0
 	np := rapid.IntRange(max(1, cfg.MinPackets), cfg.MaxPackets).Draw(t, "npackets")
 	names := make([]string, np)
 	for i := range names {
@@ -389,7 +396,21 @@ func seq(n int) []int {
 	return s
 }
 
+// keywordNames are identifiers of the DSL that are reserved words (in some letter case) of a
+// target language. They are legal field names; whether the emitted code builds with them is a
+// C07 matter, so only the properties that compare emitted text use them (GenCfg.KeywordNames).
+var keywordNames = []string{"From", "In", "Class", "Pass", "Type", "Func", "Default", "Self", "Return", "Import", "Lambda",
+	"End", "Then", "Local", "Nil", "Struct", "New", "Delete", "This", "Package", "Go", "Map", "Range", "Select", "Fn", "Impl",
+	"Mod", "Pub", "Use", "Loop", "Move", "Ref", "Trait", "Async", "Enum", "Int", "Long", "Short", "Final", "Static", "Not", "Or", "And"}
+
 func (g *genState) fname(label string) string {
+	if g.cfg.KeywordNames && rapid.IntRange(0, 7).Draw(g.t, label+"_kw") == 0 {
+		w := rapid.SampledFrom(keywordNames).Draw(g.t, label+"_kwname")
+		if !g.nm.used[norm(w)] {
+			g.nm.used[norm(w)] = true
+			return w
+		}
+	}
 	return g.nm.Name(g.t, label, g.shape(label))
 }
 
@@ -712,8 +733,20 @@ func (g *genState) matchFields(label string, refs []string) (*Field, *Field) {
 			}
 		}
 		key.Type = rapid.SampledFrom(ts).Draw(t, label+"_keytype")
+		if g.shareKeys {
+			if g.keyType == "" {
+				g.keyType = key.Type
+			}
+			key.Type = g.keyType
+		}
 	}
 	m := &Field{Kind: KMatch, Name: g.fname(label + "_match"), Key: key.Name}
+	if g.shareKeys {
+		if g.keyName == "" {
+			g.keyName, g.mfName = key.Name, m.Name
+		}
+		key.Name, m.Name, m.Key = g.keyName, g.mfName, g.keyName
+	}
 	np := rapid.IntRange(1, 5).Draw(t, label+"_npairs")
 	usedKeys := map[string]bool{}
 	for i := 0; i < np; i++ {
